@@ -46,6 +46,12 @@ def programs(tier):
         for ie in [('id', 'item'), ('mem', ('id', 'item'), 'x'), ('idx', ('id', 'item'), a), ('id', 'index'), ('bin', '+', ('id', 'item'), L('int', '1', 1))]:
             progs.append({'wxml': '<block wx:for="{{ %s }}"><input model:value="{{ %s }}"/></block>' % (esc(M.pr(le)), esc(M.pr(ie))),
                           'site': 'for+model', 'list': le, 'expr': ie, 'env': {}})
+    # a list that is a data path in one branch and a script-module member in the other: the compiler may drop the path altogether
+    # ("cannot decide"), but whatever it emits must be right in both branches
+    for le in [('cond', c, ('id', 'l'), ('mem', ('id', 'm'), 'list')), ('cond', c, ('mem', ('id', 'm'), 'list'), ('mem', ('id', 'l'), 'x'))]:
+        for ie in [('mem', ('id', 'item'), 'x'), ('id', 'item')]:
+            progs.append({'wxml': '<wxs module="m">module.exports={list:[1]}</wxs><block wx:for="{{ %s }}"><input model:value="{{ %s }}"/></block>' % (esc(M.pr(le)), esc(M.pr(ie))),
+                          'site': 'for+model', 'list': le, 'expr': ie, 'env': {}, 'script': True, 'allow_absent': True})
     # nested loops
     for inner in [('mem', ('id', 'item'), 'sub'), ('idx', ('id', 'item'), a), ('id', 'item'), ('mem', ('id', 'q'), 'r')]:
         for ie in [('id', 'j'), ('mem', ('id', 'j'), 'y'), ('mem', ('id', 'item'), 'x'), ('idx', ('id', 'j'), ('id', 'index'))]:
@@ -167,6 +173,9 @@ def main(tier):
         for desc, got, want in sites:
             nsites += 1
             it = rt.it
+            if p.get('allow_absent') and got is None:
+                res.query('unsat')
+                continue
             g, w = enc(it, got), enc(it, want)
             s = z3.Solver()
             s.set('timeout', 20000)
@@ -217,6 +226,9 @@ def site_paths(rt, root, p):
     env = {}
     ref = M.RefEval(it, rt.D)
     rp = RefPaths(it, ref, env)
+    if p.get('script'):
+        env['m'] = ('script', 'a', 'm')
+        ref.scopes['m'] = z3.Const('wxs_a_m', V)
     if p['site'].startswith('for'):
         if not fs:
             return out
